@@ -303,9 +303,12 @@ def check_line_graph_prefilter(ctx, res, dotted="projections.line_graph", rule="
             continue
         for g in comp.generators:
             it = v.inline(g.iter)
-            if not any(isinstance(x, ast.Call) and isinstance(x.func, ast.Attribute) and x.func.attr in ("get_incident_edges", "get_edges") for x in ast.walk(it)):
-                continue
             tv = g.target.id if isinstance(g.target, ast.Name) else None
+            from_edges = any(isinstance(x, ast.Call) and isinstance(x.func, ast.Attribute) and x.func.attr in ("get_incident_edges", "get_edges") for x in ast.walk(it))
+            # (or any comprehension of this function that keeps / drops its items by comparing their length with s)
+            by_len_vs_s = tv is not None and any(any(isinstance(x, ast.Call) and norm(x.func) == "len" and x.args and isinstance(x.args[0], ast.Name) and x.args[0].id == tv for x in ast.walk(c_)) and any(isinstance(x, ast.Name) and x.id == "s" for x in ast.walk(v.inline(c_))) for c_ in g.ifs)
+            if not from_edges and not by_len_vs_s:
+                continue
             for cond in g.ifs:
                 ci = v.inline(cond)
                 if not any(isinstance(x, ast.Call) and norm(x.func) == "len" for x in ast.walk(ci)):
